@@ -341,23 +341,38 @@ def run_one(tape: Tape, tier: str, opts: dict) -> dict:
                     if d2:
                         V.append({"clause": "C03.relabelling-changes-results", "site": kind, "msg": f"re-inserting the register as {scn2['atoms']} (internal order {perm2}) changes per-label results: {d2[:3]} :: {desc}"})
         # ---- safeguard: an observable that cannot be un-permuted must switch reordering off
-        if tape.bool(0.3, "safeguard"):
-            extra_obs = tape.choice(["state", "entanglement_entropy"], "np_obs")
+        if tape.bool(0.4, "safeguard") and kind != "dark":
+            extra_obs = tape.choice(["state", "entanglement_entropy", "fidelity", "expectation"], "np_obs")
             c2 = dict(case["cfg"])
-            c2["observables"] = list(case["cfg"]["observables"]) + [{"kind": extra_obs, "times": [1.0], "site": 0}]
+            # a reference state / operator that singles out one atom, so that mixing up atom orders shows
+            j = case["extra"].get("pi_target", tape.int(0, n - 1, "np_site"))
+            xo: dict[str, Any] = {"kind": extra_obs, "times": [1.0], "site": min(j, max(0, n - 2)) if extra_obs == "entanglement_entropy" else j}
+            if extra_obs == "fidelity":
+                xo["bits"] = "".join("r" if i == j else "g" for i in range(n))
+            c2["observables"] = list(case["cfg"]["observables"]) + [xo]
             case2 = {**case, "cfg": c2}
+            # the same scenario with the extra observable under the identity order and under another order: whatever the
+            # config decides about reordering, every reported value - the extra one included - must be the same
+            perm3 = ident[::-1] if tape.bool(0.5, "sg_rev") else tape.permutation(n, "sg_perm")
             nperm_before = len(world.log.of_kind("perm"))
-            out3 = run_under(world, case2, seeds, ident[::-1])
-            evals += 1
+            out3i = run_under(world, case2, seeds, ident)
+            out3 = run_under(world, case2, seeds, perm3)
+            evals += 2
             probes["non_permutable_observable_safeguard"] = 1
-            cases.append((f"N{n}|{kind}|safeguard|{extra_obs}", True))
-            if out3.error is not None:
-                V.append({"clause": "C03.run-raised", "site": f"safeguard|{out3.error_site}", "msg": f"run with {extra_obs} raised {out3.error!r} :: {desc}"})
+            cases.append((f"N{n}|{kind}|safeguard|{extra_obs}|{cycle_type(list(perm3))}", list(perm3) != ident))
+            if out3.error is not None or out3i.error is not None:
+                e = out3.error if out3.error is not None else out3i.error
+                V.append({"clause": "C03.run-raised", "site": f"safeguard|{(out3.error_site if out3.error is not None else out3i.error_site)}", "msg": f"run with {extra_obs} raised {e!r} :: {desc}"})
             else:
                 nperm = len(world.log.of_kind("perm")) - nperm_before
-                d3 = R.compare(ref.results, {**out3.results, "tags": {k: v for k, v in out3.results["tags"].items() if k in ref.results["tags"]}}, tol=TOL, skip_counters=True, tol_by_tag=tolt)
+                tol3 = dict(tolt)
+                tol3.update({"state": TOL, "fidelity": TOL, "entanglement_entropy": TOL, "expectation": TOL * energy_scale(case)})
+                d3 = R.compare(out3i.results, out3.results, tol=TOL, skip_counters=True, tol_by_tag=tol3)
                 if d3:
-                    V.append({"clause": "C03.safeguard", "site": extra_obs, "msg": f"with the non-permutable observable {extra_obs} requested (reordering must be off) results differ from the identity-order run: {d3[:3]}; the optimiser was consulted {nperm} times :: {desc}"})
+                    V.append({"clause": "C03.safeguard", "site": extra_obs, "msg": f"with the non-permutable observable {extra_obs} (singling out atom #{j}) requested, internal order {list(perm3)} gives different results than the identity order: {d3[:3]}; the optimiser was consulted {nperm} times :: {desc}"})
+                d4 = R.compare(ref.results, {**out3i.results, "tags": {k: v for k, v in out3i.results["tags"].items() if k in ref.results["tags"]}}, tol=TOL, skip_counters=True, tol_by_tag=tolt)
+                if d4:
+                    V.append({"clause": "C03.safeguard", "site": f"{extra_obs}|others", "msg": f"adding the observable {extra_obs} changes the other results: {d4[:3]} :: {desc}"})
         return {
             "violations": _dedupe(V),
             "cases": cases,
